@@ -203,16 +203,18 @@ func typedValue(t reflect.Type, v interface{}) reflect.Value {
 }
 
 type argEv struct {
-	Kind string `json:"kind"`
-	Expr string `json:"expr"`
-	Pat  []int  `json:"pat"`
-	Arg  int    `json:"arg"`
-	Res  []bool `json:"res"`
-	Rev  bool   `json:"rev"`
-	Err  string `json:"err"`
-	PatS string `json:"pats"`
-	ArgS string `json:"args"`
-	Same bool   `json:"same"` // pattern(s) and argument have the same dynamic type (or are nil)
+	Kind    string `json:"kind"`
+	Expr    string `json:"expr"`
+	Pat     []int  `json:"pat"`
+	Arg     int    `json:"arg"`
+	Res     []bool `json:"res"`
+	Rev     bool   `json:"rev"`
+	Err     string `json:"err"`
+	PatS    string `json:"pats"`
+	ArgS    string `json:"args"`
+	Same    bool   `json:"same"`    // pattern(s) and argument have the same dynamic type (or are nil)
+	Arg2    int    `json:"arg2"`    // expr "inv": the class of the variadic element
+	Altered bool   `json:"altered"` // expr "inv": the argument list handed to Eval was changed by the evaluation
 }
 
 func sameDyn(a, b interface{}) bool {
@@ -337,6 +339,44 @@ func TestVerifArgAlgebra(t *testing.T) {
 				res = []bool{}
 			}
 			enc.Encode(argEv{Kind: p.kind, Expr: "in", Pat: pc, Arg: class[j], Res: res, Err: errs, PatS: short(pats), ArgS: short(p.vals[j]), Same: same})
+			// the same over a VARIADIC argument list f(x T, ys ...T) called with one variadic element: In({a, b}, {c, d}) evaluated
+			// three times on ONE argument list [x, []T{y}] (as When.invoke hands it to every condition in turn): the answers
+			// must not change and the list must still be what the caller passed
+			if q := rng.Intn(n); true {
+				ia, ib, ic, id := rng.Intn(n), rng.Intn(n), rng.Intn(n), rng.Intn(n)
+				if rng.Intn(2) == 0 {
+					ia, ib = j, q // make a hit likely
+				}
+				sameV := sameDyn(p.vals[ia], p.vals[j]) && sameDyn(p.vals[ic], p.vals[j]) && sameDyn(p.vals[ib], p.vals[q]) && sameDyn(p.vals[id], p.vals[q])
+				ev := argEv{Kind: p.kind, Expr: "inv", Pat: []int{class[ia], class[ib], class[ic], class[id]}, Arg: class[j], Arg2: class[q], Same: sameV,
+					PatS: short([]interface{}{p.vals[ia], p.vals[ib], p.vals[ic], p.vals[id]}), ArgS: short([]interface{}{p.vals[j], p.vals[q]}), Res: []bool{}}
+				func() {
+					defer func() {
+						if pn := recover(); pn != nil {
+							ev.Err = "panic:" + fmt.Sprint(pn)
+						}
+					}()
+					in := arg.In([]interface{}{p.vals[ia], p.vals[ib]}, []interface{}{p.vals[ic], p.vals[id]})
+					st := reflect.SliceOf(p.typ)
+					if err := in.Resolve([]reflect.Type{p.typ, st}, true); err != nil {
+						ev.Err = "resolve:" + err.Error()
+						return
+					}
+					tail := reflect.MakeSlice(st, 1, 1)
+					tail.Index(0).Set(typedValue(p.typ, p.vals[q]))
+					input := []reflect.Value{typedValue(p.typ, p.vals[j]), tail} // len == cap, like the arguments of a MakeFunc callback
+					for k := 0; k < 3; k++ {
+						r, err := in.Eval(input, true)
+						if err != nil {
+							ev.Err = "eval:" + err.Error()
+							return
+						}
+						ev.Res = append(ev.Res, r)
+					}
+					ev.Altered = len(input) != 2 || input[1].Kind() != reflect.Slice || input[1].Len() != 1
+				}()
+				enc.Encode(ev)
+			}
 		}
 	}
 }
